@@ -483,10 +483,51 @@ func runCLI(c *harness.Ctx, dir, target string, blob []byte, idx desync.Index, s
 	idxFile := filepath.Join(dir, "target.caibx")
 	dsu.Must(dsu.WriteIndex(idxFile, idx))
 	args := []string{"extract", "-s", storeDir, "-n", fmt.Sprint(n), "--print-stats"}
-	for k, sp := range specs {
-		sidx := filepath.Join(dir, fmt.Sprintf("seedidx%d.caibx", k))
-		dsu.Must(dsu.WriteIndex(sidx, sp.index))
-		args = append(args, "--seed", sidx+":"+sp.file)
+	// seeds are named one by one, or found in a seed directory (every X.caibx with an X next to it) - which is also
+	// where the index to extract and its output live, spelled differently from the directory (relative / absolute /
+	// with a detour): that one pair is not a seed, whatever the output path holds
+	seedDir := c.Rng.Intn(2) == 0
+	for _, sp := range specs {
+		if sp.alias || sp.miss {
+			seedDir = false
+		}
+	}
+	runDir := ""
+	if seedDir {
+		sd := filepath.Join(dir, "seeds")
+		os.MkdirAll(sd, 0755)
+		for k, sp := range specs {
+			b, err := os.ReadFile(sp.file)
+			dsu.Must(err)
+			dsu.WriteFile(filepath.Join(sd, fmt.Sprintf("seed%d", k)), b)
+			dsu.Must(dsu.WriteIndex(filepath.Join(sd, fmt.Sprintf("seed%d.caibx", k)), sp.index))
+		}
+		newTarget := filepath.Join(sd, "img")
+		if _, err := os.Lstat(target); err == nil {
+			dsu.Must(os.Rename(target, newTarget))
+		}
+		target = newTarget
+		dsu.Must(os.Rename(idxFile, newTarget+".caibx"))
+		idxFile = newTarget + ".caibx"
+		runDir = dir
+		switch c.Rng.Intn(4) {
+		case 0: // directory absolute, index and output relative
+			args = append(args, "--seed-dir", sd)
+			idxFile, target = "seeds/img.caibx", "seeds/img"
+		case 1: // the other way round
+			args = append(args, "--seed-dir", "seeds")
+		case 2: // a detour in one of them
+			args = append(args, "--seed-dir", filepath.Join(dir, "seeds")+"/../seeds")
+		case 3: // both spelled alike
+			args = append(args, "--seed-dir", sd)
+		}
+		sigKinds += "|seed-dir"
+	} else {
+		for k, sp := range specs {
+			sidx := filepath.Join(dir, fmt.Sprintf("seedidx%d.caibx", k))
+			dsu.Must(dsu.WriteIndex(sidx, sp.index))
+			args = append(args, "--seed", sidx+":"+sp.file)
+		}
 	}
 	switch action {
 	case 1:
@@ -501,6 +542,10 @@ func runCLI(c *harness.Ctx, dir, target string, blob []byte, idx desync.Index, s
 	args = append(args, idxFile, target)
 	cmd := exec.Command(cli, args...)
 	cmd.Env = append(os.Environ(), "HOME="+dir)
+	cmd.Dir = runDir
+	if runDir != "" && !filepath.IsAbs(target) {
+		target = filepath.Join(runDir, target)
+	}
 	var stdout, stderr bytes.Buffer
 	cmd.Stdout = &stdout
 	cmd.Stderr = &stderr
